@@ -34,6 +34,7 @@ type c07Shape struct {
 	Result  interface{} // what the service encodes: a value, []interface{} for several results, or an error
 	Returns []reflect.Type
 	Label   string
+	BigOnly bool // only with option set 4 (big numbers in interface{} positions need LongTypeBigInt / RealTypeBigFloat)
 }
 
 func c07Service() *core.Service {
@@ -67,7 +68,7 @@ func c07Shapes() []c07Shape {
 	h2 := map[string]interface{}{"a": "x", "b": "x", "shared": "shared", "list": []interface{}{"x", "x"}}
 	var out []c07Shape
 	add := func(label, name string, args []interface{}, h map[string]interface{}, result interface{}, returns ...reflect.Type) {
-		out = append(out, c07Shape{name, args, h, result, returns, label})
+		out = append(out, c07Shape{name, args, h, result, returns, label, false})
 	}
 	add("no-args", "f0", nil, h0, nil)
 	add("no-args-headers", "f0", nil, h1, nil)
@@ -100,6 +101,18 @@ func c07Shapes() []c07Shape {
 	add("several-results-fewer", "f1", []interface{}{1}, h0, []interface{}{1}, intT, strT)
 	add("result-struct-list", "f1", []interface{}{1}, h0, []gen.Plain{{A: 1, B: "x"}, {A: 2, B: "x"}}, reflect.TypeOf([]gen.Plain(nil)))
 	add("result-map", "f1", []interface{}{1}, h1, map[string]interface{}{"a": "x", "b": "x"}, reflect.TypeOf(map[string]interface{}(nil)))
+	// numbers that only the big types hold: what comes out of an interface{} position depends on the decoding side's
+	// LongType / RealType (option set 4 on both sides); a side that ignores its option returns another number
+	bi, _ := new(big.Int).SetString("1180591620717411303424", 10)                // 2^70
+	bf, _ := new(big.Float).SetPrec(64).SetString("9223372036854775809")           // 2^63 + 1: 64 bits of mantissa
+	huge, _ := new(big.Float).SetPrec(64).SetString("1e400")                       // beyond float64
+	add("big-long-arg-real-result", "fany", []interface{}{bi}, h0, bf, ifaceT)
+	add("big-real-arg-long-result", "fany", []interface{}{bf}, h0, bi, ifaceT)
+	add("big-huge-real", "fany", []interface{}{huge}, h1, huge, ifaceT)
+	add("big-in-containers", "fany", []interface{}{[]interface{}{bi, bf, "shared"}}, h1, map[string]interface{}{"a": bi, "b": bf, "shared": "shared"}, ifaceT)
+	for i := len(out) - 4; i < len(out); i++ {
+		out[i].BigOnly = true
+	}
 	add("error", "f1", []interface{}{1}, h0, errors.New("boom"), intT)
 	add("error-with-headers", "f1", []interface{}{1}, h1, errors.New("shared"), intT)
 	add("panic-error", "f1", []interface{}{1}, h0, core.NewPanicError("kaboom"), intT)
@@ -128,6 +141,8 @@ func c07Options(o c07Opts, client bool) []core.CodecOption {
 		} else {
 			opts = append(opts, core.WithStructType(hio.StructTypeValue), core.WithListType(hio.ListTypeSlice))
 		}
+	case 4:
+		opts = append(opts, core.WithLongType(hio.LongTypeBigInt), core.WithRealType(hio.RealTypeBigFloat))
 	case 3:
 		if client {
 			opts = append(opts, core.WithStructType(hio.StructTypeValue))
@@ -486,7 +501,10 @@ func runC07(a Args) tr.Summary {
 	for _, sh := range shapes {
 		for _, cs := range []bool{false, true} {
 			for _, ss := range []bool{false, true} {
-				for ty := 0; ty < 4; ty++ {
+				for ty := 0; ty < 5; ty++ {
+					if sh.BigOnly != (ty == 4) {
+						continue
+					}
 					opts := c07Opts{cs, ss, ty}
 					if a.Only != "" && (o.Label != sh.Label || o.Opts != opts) {
 						continue
